@@ -359,7 +359,8 @@ impl<'b> Machine<'b> {
         let VSlot { s, t, .. } = v;
         let held = bump.allocated_bytes();
         bump.set_allocation_limit(Some(held));
-        let n = 64 + (a as usize) * 64;
+        // mostly far more than can be had, sometimes just a little (which may fit in place when the amortised amount does not)
+        let n = if a & 0x80 != 0 { 1 + (a as usize & 7) } else { 64 + (a as usize) * 64 };
         let r = {
             let _g = enter_arena(1);
             catch_unwind(AssertUnwindSafe(|| if b & 1 == 0 { s.try_reserve(n).is_ok() } else { s.try_reserve_exact(n).is_ok() }))
@@ -492,6 +493,35 @@ impl<'b> Machine<'b> {
                 Slot::Dead => {}
             }
         }
+        // what every collection *claims* (its whole capacity, not just its length) must be its own: the claimed byte
+        // ranges of all live vectors, strings, boxed slices, leaked slices and raw neighbours are pairwise disjoint
+        {
+            let mut ranges: Vec<(usize, usize, usize)> = Vec::with_capacity(self.slots.len());
+            for (i, s) in self.slots.iter().enumerate() {
+                let r = match s {
+                    Slot::E(v) => (v.s.as_ptr() as usize, v.s.capacity().saturating_mul(std::mem::size_of::<El<0>>())),
+                    Slot::B(v) => (v.s.as_ptr() as usize, v.s.capacity()),
+                    Slot::S { s, .. } => (s.as_ptr() as usize, s.capacity()),
+                    Slot::Bx { s, .. } => (s.as_ptr() as usize, s.len() * std::mem::size_of::<El<0>>()),
+                    Slot::LeakedE { s, .. } => (s.as_ptr() as usize, s.len() * std::mem::size_of::<El<0>>()),
+                    Slot::LeakedB { s, .. } => (s.as_ptr() as usize, s.len()),
+                    Slot::Canary { ptr, len, .. } => (*ptr, *len),
+                    _ => (0, 0),
+                };
+                if r.1 > 0 {
+                    ranges.push((r.0, r.1, i));
+                }
+            }
+            ranges.sort_unstable();
+            for w in ranges.windows(2) {
+                if w[0].0.saturating_add(w[0].1) > w[1].0 {
+                    let m = format!("slot {} claims [{:#x}, +{}) (its full capacity) which overlaps slot {} at [{:#x}, +{}): a capacity larger than the memory reserved for it", w[0].2, w[0].0, w[0].1, w[1].2, w[1].0, w[1].1);
+                    msgs.push(("C13", m.clone()));
+                    msgs.push(("C14", m.clone()));
+                    msgs.push(("C19", m));
+                }
+            }
+        }
         // drop ledger
         let (ds, ps) = dropped_since(0, self.ctx.drop_pos[0]);
         let (dt, pt) = dropped_since(1, self.ctx.drop_pos[1]);
@@ -499,6 +529,8 @@ impl<'b> Machine<'b> {
         self.ctx.stats[V::Drops as usize] += ds.len() as u32;
         if ds != dt {
             msgs.push(("C15", format!("payloads dropped during this step: {:?}, std dropped {:?}", ds, dt)));
+            // running different destructors than std's Vec does for the same call is also a difference in behaviour
+            msgs.push(("C13", format!("destructors run during this step differ from std's Vec: dropped {:?}, std dropped {:?}", ds, dt)));
         }
         let dd = double_drops(0);
         if !dd.is_empty() {
